@@ -39,7 +39,7 @@ func TypeKey(t types.Type) string {
 }
 
 // ObjKey renders a function object as "<short pkg>.<Recv>.<Name>" or "<short pkg>.<Name>".
-func ObjKey(f *types.Func) string {
+func objKeyRaw(f *types.Func) string {
 	if f == nil {
 		return "?"
 	}
@@ -52,6 +52,10 @@ func ObjKey(f *types.Func) string {
 	}
 	return shortPkg(f.Pkg().Path()) + "." + f.Name()
 }
+
+// ObjKey renders a function object as "<short pkg>.<Recv>.<Name>" or "<short pkg>.<Name>" (renamed anchors keep
+// the key the rule tables know, see ResolveRenamedFuncs).
+func ObjKey(f *types.Func) string { return aliasFuncKey(objKeyRaw(f)) }
 
 // FuncKey is the stable, line-independent name of an SSA function. Anonymous
 // functions are "<parent>$<n>".
@@ -262,4 +266,45 @@ func RecursesInLoop(f *ssa.Function) bool {
 		}
 	})
 	return rec
+}
+
+// ResolvedCalleeKeys lists the callee keys call c may reach: its static callee / interface method, or - for a call
+// through a function value - the functions and method values (x.M) that flow into that value, through parameters of
+// virtually inlined helpers.
+func ResolvedCalleeKeys(c ssa.CallInstruction) []string {
+	cc := c.Common()
+	if cc.IsInvoke() || cc.StaticCallee() != nil {
+		return []string{CalleeKey(c)}
+	}
+	if _, isB := cc.Value.(*ssa.Builtin); isB {
+		return []string{CalleeKey(c)}
+	}
+	var out []string
+	seen := map[string]bool{}
+	add := func(k string) {
+		if k != "" && !seen[k] {
+			seen[k] = true
+			out = append(out, k)
+		}
+	}
+	for _, o := range append(Origins(cc.Value), cc.Value) {
+		var fn *ssa.Function
+		switch x := o.(type) {
+		case *ssa.Function:
+			fn = x
+		case *ssa.MakeClosure:
+			fn, _ = x.Fn.(*ssa.Function)
+		}
+		if fn == nil {
+			continue
+		}
+		if fn.Synthetic != "" {
+			if m, ok := fn.Object().(*types.Func); ok && m != nil {
+				add(ObjKey(m)) // bound method value / method expression
+				continue
+			}
+		}
+		add(FuncKey(fn))
+	}
+	return out
 }
